@@ -1,5 +1,6 @@
 """C13 — generated code is hygienic: user-chosen names never change its meaning."""
 import itertools
+import re
 
 from .. import l2, sx
 from .. import run as R
@@ -36,6 +37,8 @@ pub mod shadow {
     pub fn drop() {} pub mod core {} pub mod std {} pub struct Equal; pub struct Less; pub struct Greater;
     pub trait Send {} pub trait Sync {} pub trait FnMut {} pub trait FnOnce {} pub trait ToOwned {} pub trait Extend {}
     pub trait IntoIterator {} pub trait DoubleEndedIterator {} pub trait ExactSizeIterator {} pub trait Unpin {}
+    pub struct bool; pub struct isize; pub struct str; pub struct char; pub struct u32; pub struct i32;
+    pub struct u64; pub struct f64;
     #[macro_export] macro_rules! __shadow_unreachable { () => { compile_error!("relative unreachable! captured") } }
 }
 '''
@@ -176,6 +179,58 @@ def impl_programs():
                    'pub fn run() { %s }' % body.replace('@ID@', str(cid))]
             out.append((cid, bi, name, '\n'.join(src), '#[derive_ex(%s)] %s' % (attr, item.replace('NAME', name))))
     return out
+
+
+_KW = set('impl for where fn match let mut return type const as self Self dyn true false ref if else in unsafe move pub crate '
+          'super static struct enum trait use mod loop while break continue _'.split())
+_IDENT = re.compile(r'^(r#)?[A-Za-z_][A-Za-z0-9_]*$')
+
+
+def relative_names(text, user):
+    """identifiers of a flat token text that would be resolved in the scope of the use site"""
+    toks, out, i = text.split(' '), [], 0
+    flat = []
+    while i < len(toks):            # drop `# [ .. ]` attributes (lint names are not resolved in the user's scope)
+        if toks[i] == '#' and i + 1 < len(toks) and toks[i + 1] == '[':
+            d, j = 0, i + 1
+            while j < len(toks):
+                d += toks[j] == '['
+                d -= toks[j] == ']'
+                if d == 0:
+                    break
+                j += 1
+            i = j + 1
+            continue
+        flat.append(toks[i])
+        i += 1
+    own_t = 'fn __assert_eq < T :' in ' '.join(flat)          # the nested function declares its own parameter `T`
+    depth_stringify = 0
+    for i, t in enumerate(flat):
+        p1, p2 = (flat[i - 1] if i else ''), (flat[i - 2] if i > 1 else '')
+        nx = flat[i + 1] if i + 1 < len(flat) else ''
+        if not _IDENT.match(t) or t in _KW or t.startswith('__') or t in user:
+            continue
+        if (p1 == ':' and p2 == ':') or p1 in ('.', 'fn', 'type', "'") or (nx == '=' and p1 in (',', '<')):
+            continue
+        if t == 'T' and own_t:
+            continue
+        if p1 == '(' and p2 == '!' and i > 2 and flat[i - 3] == 'stringify':
+            continue                # `stringify!(name)`: the text of a (raw) name, nothing is looked up
+        out.append(t)
+    return out
+
+
+PRIMITIVES = '#[derive(Debug, Clone, Copy, Default, PartialEq, Eq, PartialOrd, Ord, Hash)] pub struct Wq;\n' + \
+    ' '.join('pub struct %s;' % t for t in ('bool', 'char', 'str', 'u8', 'u16', 'u32', 'u64', 'u128', 'usize', 'i8', 'i16', 'i32', 'i64',
+                                             'i128', 'isize', 'f32', 'f64')) + '\n'
+_ALL = 'Clone, Copy, Debug, Default, PartialEq, Eq, PartialOrd, Ord, Hash'
+PRIMITIVE_SHADOW = [
+    (_ALL, 'pub struct Zq { pub fa: Wq, #[ord(key = $.clone())] pub fb: Wq }'),
+    (_ALL, 'pub struct Zq(pub Wq, #[eq(by = |a, b| a == b)] #[ord(by = |a: &Wq, b: &Wq| a.cmp(b))] #[hash(ignore)] pub Wq);'),
+    (_ALL, 'pub enum Zq { #[default] Va, Vb(Wq), Vc { fa: Wq, #[ord(by = |a: &Wq, b: &Wq| a.cmp(b))] #[hash(ignore)] fb: Wq } }'),
+    ('Clone, Debug, PartialEq, Eq, Hash', 'pub enum Zq<Pq> { Va(Pq), Vb { #[debug(ignore)] fa: Pq }, Vc }'),
+    ('Add, SubAssign, Neg, Not, Deref, DerefMut', 'pub struct Zq(pub ::std::num::Wrapping<::core::primitive::i32>);'),
+]
 
 
 class C13(Prop):
@@ -353,9 +408,39 @@ class C13(Prop):
                 validated += 1
                 if len(samples) < 3 and scope == 'prelude shadowed':
                     samples.append(dict(scope=scope, input=r.input_text()[:300]))
+        # model-free: every identifier of the REAL expansion that is looked up in the scope of the use site - i.e. that
+        # neither continues a path (`:: core :: cmp :: Ordering`), nor follows `.`, `fn`, `type`, nor is a keyword, a
+        # reserved `__` name or the user's own - is a name the user's scope could redefine (`struct bool;`)
+        for r in results:
+            user = set(re.findall(r'(?:r#)?[A-Za-z_][A-Za-z0-9_]*', r.item + ' ' + r.attr))
+            user |= set(u[2:] for u in user if u.startswith('r#'))
+            alien = []
+            for p in r.actual:
+                if p[0] in ('IMPL', 'CONST'):
+                    alien += relative_names(' '.join(p[1:]), user)
+            if alien:
+                failures.append(dict(**{'class': 'relative-name-in-generated-code', 'mode': 'scan'}, input=r.input_text(),
+                                     expected='names of the expansion are absolute paths, keywords, reserved `__` names or the user\'s',
+                                     observed=sorted(set(alien))[:6]))
+            else:
+                validated += 1
+        # the names of ALL primitive types redefined at the use site (the items here use none of them)
+        prim = []
+        for k, (tl, decl) in enumerate(PRIMITIVE_SHADOW):
+            for mi, head in enumerate(('#[::derive_ex::derive_ex(%s)]', '#[derive(::derive_ex::Ex)] #[derive_ex(%s)]')):
+                prim.append(l2.Module(9 * 10 ** 6 + 2 * k + mi, PRIMITIVES + (head % tl) + '\n' + decl + '\npub fn run() {}',
+                                      _Lit('%s %s   [with `struct bool; struct usize; struct u8; ..` in scope]' % ((head % tl).replace('::derive_ex::', ''), decl), -1, 'Kq')))
+        l2.compile_batch('c13prim', prim, prelude='', check_only=True, crate_attrs=allow)
+        for mo in prim:
+            if mo.compiled:
+                validated += 1
+            else:
+                failures.append(dict(**{'class': 'renaming-changes-the-program', 'mode': 'primitive type names redefined'}, input=mo.meta.input_text(),
+                                     expected='compiles: generated code does not depend on what the scope calls `bool`, `usize`, ..',
+                                     observed=[d['message'] for d in mo.diags if d['level'] == 'error'][:3]))
+        l2.cleanup('c13prim')
         # impl-level derives, model-free: every name BOUND by the generated impls (`let`, function and closure parameters) is
         # either the user's (it occurs in the input) or in the reserved `__` namespace
-        import re
         raw = R.run_raw([('A', text[len('#[derive_ex('):text.index(')] ')], text[text.index(')] ') + 3:], None)
                          for cid, bi, name, src, text in impl_programs() if name == 'Kq'] +
                         [('A', 'Neg, Not', 'impl ::core::ops::Neg for &Zq { type Output = Zq; fn neg(self) -> Zq { Zq(1) } }', None),
